@@ -790,3 +790,29 @@ def Semver.Gen.range_set_check (input : (List Char)) (sets : (List Semver.BoundS
 def Semver.Gen.range_set : Winnow.Parser Semver.Range := fun input =>
   (Winnow.tryMap (Winnow.preceded Winnow.space0 Semver.Gen.bound_sets) (Semver.Gen.range_set_check input)) input
 
+/-- `Version::parse` (lib.rs:339-376) -/
+def Semver.Version.rs_parse (input : (List Char)) : (Except Semver.SemverError Semver.Version) := do
+  let original := input
+  let mut input := original
+  if (Rust.gt (Rust.len input) Semver.MAX_LENGTH) then
+    let last_char := (Rust.map_or (Rust.next_back (Rust.char_indices input)) 0 (fun (i, _) => i))
+    throw ({ input := (Rust.into input), offset := (Rust.span_offset (Rust.into (last_char, (0 : Nat)))), kind := Semver.EKind.maxLength } : Semver.SemverError)
+  let run1 := Winnow.run Semver.Gen.version input
+  input := run1.2
+  match run1.1 with
+  | (Except.ok arg) =>
+    pure arg
+  | (Except.error err) =>
+    throw (match err with | (Winnow.ErrMode.Backtrack e) | (Winnow.ErrMode.Cut e) => ({ input := (Rust.into original), offset := (Rust.span_offset (Rust.into ((Rust.ptr_diff e.input original), (0 : Nat)))), kind := (match e.kind with | (some kind) => kind | _ => (match e.context with | (some ctx) => (Semver.EKind.context ctx) | _ => Semver.EKind.other)) } : Semver.SemverError) | (Winnow.ErrMode.Incomplete _) => ({ input := (Rust.into input), offset := (Rust.span_offset (Rust.into (((Rust.len input) - 1), (0 : Nat)))), kind := Semver.EKind.incompleteInput } : Semver.SemverError))
+
+/-- `Range::parse` (range.rs:407-431) -/
+def Semver.Range.rs_parse (input : (List Char)) : (Except Semver.SemverError Semver.Range) := do
+  let mut input := input
+  let run1 := Winnow.run Semver.Gen.range_set input
+  input := run1.2
+  match run1.1 with
+  | (Except.ok range) =>
+    pure range
+  | (Except.error err) =>
+    throw (match err with | (Winnow.ErrMode.Backtrack e) | (Winnow.ErrMode.Cut e) => ({ input := (Rust.into input), offset := (Rust.span_offset (Rust.into ((Rust.ptr_diff e.input input), (0 : Nat)))), kind := (match e.kind with | (some kind) => kind | _ => (match e.context with | (some ctx) => (Semver.EKind.context ctx) | _ => Semver.EKind.other)) } : Semver.SemverError) | (Winnow.ErrMode.Incomplete _) => ({ input := (Rust.into input), offset := (Rust.span_offset (Rust.into (((Rust.len input) - 1), (0 : Nat)))), kind := Semver.EKind.incompleteInput } : Semver.SemverError))
+
